@@ -6,7 +6,7 @@ ABI_PRESERVED = {"rdi", "rsi", "rdx", "rcx", "r8", "r9", "rbx", "rbp", "r12", "r
 
 def run(res, tier, seed, replay):
     res.corr_diffs, res.unknown = [], []
-    res.cov["rule"] = ("real (x86-64 CPU): an assembly caller loads a pattern into the 6 integer argument registers, the 6 callee-saved registers, r10/r11, xmm0-7 and three stack slots and calls a faked assembly target; the assembly fake records the whole register file, "
+    res.cov["rule"] = ("real (x86-64 CPU): an assembly caller loads a pattern into the 6 integer argument registers, the 6 callee-saved registers, r10/r11, the vector registers 0-7 at full width (256-bit ymm when the CPU has AVX, else 128-bit xmm) and three stack slots and calls a faked assembly target; the assembly fake records the whole register file, "
                        "RSP, the return address and the stack arguments at its entry, the caller records RAX/RDX, callee-saved registers and RSP after the return; near fake (short trampoline) and a fake > 2 GiB away (long trampoline); Rust-level fakes with 14 mixed "
                        "integer/float/stack arguments, a two-register return and a 136-byte by-memory return. sim: the bytes the implementation writes for random placements executed with the extracted x86 semantics: registers changed must avoid the ABI-preserved set "
                        "and memory must not be written; distinct = distinct (mode, pattern class) / (entry form, trampoline form)")
